@@ -50,3 +50,25 @@ pub fn run<F: FnMut(&Case<'_>, &mut Report)>(rep: &mut Report, o: &Opts, cfg: Ge
         }
     }
 }
+
+/// fixed witnesses (corpus of past findings): same treatment as generated cases, always run
+pub fn run_fixed<F: FnMut(&Case<'_>, &mut Report)>(rep: &mut Report, o: &Opts, cases: &[(CmdS, Vec<Vec<u8>>)], mut oracle: F) {
+    let mut reqs = vec![]; let mut impls = vec![];
+    for (cmd, argv) in cases {
+        if !real_valid(cmd) { rep.notes.push(format!("fixed witness no longer a valid definition: {}", cmd.summary(0))); continue; }
+        let (canon, m, e) = real_parse(cmd, argv);
+        let req = parse_request(cmd, argv);
+        let case = Case { cmd, argv, canon: &canon, matches: m.as_ref(), err: e.as_ref(), req: &req };
+        oracle(&case, rep);
+        rep.case(&req, true);
+        rep.count("fixed_witnesses");
+        reqs.push(req); impls.push(canon);
+    }
+    if o.driver != "none" {
+        let model = driver_batch(&o.driver, &reqs, 1);
+        for ((req, m), i) in reqs.iter().zip(model.iter()).zip(impls.iter()) {
+            let same = if i.starts_with("PANIC") && m.starts_with("ERR PANIC") { true } else { m == i };
+            if !same { rep.disagree("parse", req, m, i); }
+        }
+    }
+}
